@@ -197,21 +197,34 @@ Section Proofs.
     rewrite A, B. auto.
   Qed.
 
-  Lemma write_compressed_ext rs os big st st' : write_compressed rs os big st = Ok st' -> ext st st'.
+  Lemma wc_one_ext rs os big st st' : wc_one fmt fmt_sd encS encB fenc c rs os big st = Ok st' -> ext st st'.
   Proof.
-    unfold Writer.write_compressed. destruct (strm st); [discriminate|].
-    destruct (negb (check_compressed rs os)); [discriminate|].
-    destruct os as [|o os]; [intros H; inversion H; subst; apply ext_refl|].
-    destruct (negb (use_objstm c)); [apply put_all_ext|].
-    intros H. binv H. destruct a as [sref st1]. binv Hk.
+    unfold wc_one. intros H. binv H. destruct a as [sref st1]. binv Hk.
     destruct (objstm_parts _ _ _) as [head body]. binv Hk0.
     destruct (strm a0) eqn:Es; [|discriminate].
     eapply ext_trans; [eapply alloc_ext; eassumption|].
     eapply ext_trans; [eapply set_comp_ext; eassumption|].
     eapply ext_trans.
-    { destruct (record_all_same rs (o :: os) a) as [A B]. apply ext_same; eassumption. }
+    { destruct (record_all_same rs os a) as [A B]. apply ext_same; eassumption. }
     eapply ext_trans; [eapply open_stream_ext; eassumption|].
     eapply ext_trans; [|eapply close_stream_ext; eassumption]. apply ext_same; reflexivity.
+  Qed.
+
+  Lemma wc_chunks_ext fuel : forall rs os bigs st st',
+    wc_chunks fmt fmt_sd encS encB fenc c fuel rs os bigs st = Ok st' -> ext st st'.
+  Proof.
+    induction fuel as [|f IH]; intros rs os bigs st st' H; cbn [wc_chunks] in H; [discriminate|].
+    destruct (Nat.ltb _ _).
+    - binv H. eapply ext_trans; [eapply wc_one_ext; eassumption | eapply IH; eassumption].
+    - eapply wc_one_ext; eassumption.
+  Qed.
+
+  Lemma write_compressed_ext rs os bigs st st' : write_compressed rs os bigs st = Ok st' -> ext st st'.
+  Proof.
+    unfold Writer.write_compressed. destruct (strm st); [discriminate|].
+    destruct (negb (check_compressed rs os)); [discriminate|].
+    destruct os as [|o os]; [intros H; inversion H; subst; apply ext_refl|].
+    destruct (negb (use_objstm c)); [apply put_all_ext | apply wc_chunks_ext].
   Qed.
 
   Lemma write_xref_table_ext tr st st' : write_xref_table tr st = Ok st' -> ext st st'.
